@@ -14,7 +14,7 @@ import os
 
 import numpy as np
 
-from mc import drive, util, world
+from mc import drive, scriptrng, util, world
 
 ENV = dict(NUMBA_BOUNDSCHECK="1")  # applied by the runner before ladim.ROMS / numba are imported
 
@@ -96,21 +96,7 @@ def cases(tier, seed):
     return out
 
 
-class Scripted:
-    """Scripted generator: only normal(size=n) is allowed."""
-
-    def __init__(self, val):
-        self.val = val
-        self.calls = 0
-
-    def normal(self, *a, size=None, **kw):
-        if a or kw or size is None:
-            raise util.HarnessError("unexpected rng call")
-        self.calls += 1
-        out = np.zeros(size)
-        out[::2] = self.val
-        out[1::2] = -self.val
-        return out
+Scripted = scriptrng.Alternating  # +val, -val, ... along the stream of drawn scalars, whatever the call structure
 
 
 W = world.World(imax=11, jmax=10, N=3, h=np.fromfunction(lambda j, i: 20.0 + 3 * i + 5 * j, (10, 11)), dx=800.0, theta_s=3.0, theta_b=0.4, hc=5.0)
